@@ -30,7 +30,10 @@ RULE = (
     "interpreter / hash seed); compared byte-for-byte with the reference run in a new interpreter"
 )
 ASSUMPTIONS = [
-    "tiny data (5 individuals, 3 features, 2 sources), n_iter = 6 (5 memory-less iterations + 1), CPU, one torch thread",
+    "tiny data (5 individuals, 3 features, 2 sources), n_iter = 6 (fit: 3 memory-less iterations + 3 with memory), samplers' "
+    "adaptation window 4, CPU, one torch thread",
+    "a LeaspyConvergenceError that the reference run raises too (degenerate fit on the tiny data, e.g. seed 24 on the joint model) "
+    "is an outcome to be reproduced identically, not a violation",
     "models are built from hand-written parameters (BaseModel.load) and then fitted / personalised / simulated",
     "prior activities use OTHER model objects (what a fit leaves inside the same model object is C13's subject)",
     "personalize / simulate ignore the output manager by design: their logging grid is the 2-valued one "
@@ -320,6 +323,10 @@ def judge(case, obs, ref, baseline_differs=False):
         out.append((f"prior activity|{pf.get('exc')}|{case.get('prior')}", f"the prior activity itself failed: {pf}", None, pf))
     if obs["kind"] == "refused" and obs["stage"] == "settings" and L.logging_is_active(case.get("log")):
         return "refused at settings time: LeaspyAlgoInputError", out
+    if obs["kind"] == "raise" and obs.get("exc") == NOT_CONVERGED and ref["kind"] == "raise" and ref.get("exc") == NOT_CONVERGED \
+            and obs["stage"] == ref["stage"]:
+        # the documented outcome of a fit that degenerates on the tiny data set (e.g. seed 24, joint model): reproduced identically
+        return f"did not converge like the reference run: {NOT_CONVERGED}", out
     if obs["kind"] == "raise":
         feat = raise_feature(case, obs) if obs["stage"] == "run" else f"at settings time, {'logging on' if L.logging_is_active(case.get('log')) else 'no logging'}"
         out.append((f"{site}|{obs['exc']}|{feat}",
@@ -389,8 +396,12 @@ def plain_case(c):
     return {"algo": c["algo"], "model": c["model"], "seed": c["seed"], "log": None, "route": "settings", "prior": "nothing"}
 
 
+NOT_CONVERGED = "LeaspyConvergenceError"
+
+
 def same_observation(obs, ref):
-    return obs["kind"] == ref["kind"] and obs.get("stage") == ref.get("stage") and obs.get("digest") == ref.get("digest")
+    return obs["kind"] == ref["kind"] and obs.get("stage") == ref.get("stage") and obs.get("digest") == ref.get("digest") \
+        and obs.get("exc") == ref.get("exc")
 
 
 def only_fit_metrics(parts):
@@ -402,7 +413,7 @@ def only_fit_metrics(parts):
 
 def interp_signature(algo, obs, base):
     site = L.algo_site(algo)
-    if obs["kind"] != base["kind"] or obs.get("stage") != base.get("stage"):
+    if obs["kind"] != base["kind"] or obs.get("stage") != base.get("stage") or obs.get("exc") != base.get("exc"):
         return f"{site}|outcome differs across PYTHONHASHSEED|no logging", [obs.get("exc"), obs.get("msg")]
     parts = differing_parts(obs, base)
     if algo in L.FIT_SAMPLERS:
@@ -426,11 +437,11 @@ def run_interp(acc, shard):
             acc.nontriv(case_key(full))
             acc.outcome((obs.get("digest") and "ok:" + obs["digest"]) or f"{obs['kind']}@{obs['stage']}")
             if h == HASHSEEDS[0]:
-                if obs["kind"] == "raise":
+                if obs["kind"] == "raise" and obs.get("exc") != NOT_CONVERGED:
                     acc.violation(f"{L.algo_site(algo)}|{obs['exc']}|no logging, {obs.get('where')}", obs.get("msg"),
                                   {"check": "interp", "cases": cases, "hashseeds": [h]})
                 continue
-            if obs.get("digest") != b.get("digest") or obs["kind"] != b["kind"]:
+            if not same_observation(obs, b):
                 sig, parts = interp_signature(algo, obs, b)
                 if only_fit_metrics(parts):
                     acc.count("fits whose fit_metrics (not parameters) differ across PYTHONHASHSEED")
@@ -490,11 +501,11 @@ def replay(case):
         for h, res in zip(hs, results):
             for c, obs, b in zip(case["cases"], res, base):
                 if h == hs[0]:
-                    if obs["kind"] == "raise":
+                    if obs["kind"] == "raise" and obs.get("exc") != NOT_CONVERGED:
                         out.append({"signature": f"{L.algo_site(c['algo'])}|{obs['exc']}|no logging, {obs.get('where')}",
                                     "message": str(obs.get("msg"))})
                     continue
-                if obs.get("digest") != b.get("digest") or obs["kind"] != b["kind"]:
+                if not same_observation(obs, b):
                     sig, parts = interp_signature(c["algo"], obs, b)
                     if only_fit_metrics(parts):
                         continue
